@@ -92,10 +92,15 @@ def parse(buf):
     if lvl == 2:
         first = le(buf[24:26])
         exts, end = walk_chain(buf, 26, first, 2)
+        total = le(buf[0:2]) + (2 if os_t == 0x4b else 0)
     elif lvl == 3:
         first = le(buf[28:32])
         exts, end = walk_chain(buf, 32, first, 4)
+        total = le(buf[24:28])
     else:
         raise ValueError("level")
     items.append("X" + "|".join(exts))
+    if total > end:
+        items.append("z" + hx(buf[end:total]))      # bytes inside the header after the chain terminator (padding)
+        end = total
     return ";".join(items), end, clen_f
